@@ -60,21 +60,11 @@ def apply_op(op, m, kind, tmpdir, r, tag, case):
         m.save(path)
         return type(m).load(path)
     d = m.to_dict()
-    snap = copy.deepcopy(d)
     if op == 'J':
         d = json.loads(json.dumps(d))
-        snap = copy.deepcopy(d)
     cls = generic_cls(kind) if op == 'G' else type(m)
-    new = cls.from_dict(d)
-    if not seq.values_equal(d, snap):
-        r.violation(f'C14:{kind}:from_dict-modifies-its-argument', f'{tag}: from_dict changed the dict it was given '
-                    f'(keys before {sorted(map(str, snap))[:6]}, after {sorted(map(str, d))[:6]})', case=case)
-    # the same dict must be usable again
-    again = zoo.attempt(cls.from_dict, d)
-    if isinstance(again, zoo.Raised):
-        r.violation(f'C14:{kind}:dict-not-reusable', f'{tag}: a second from_dict on the same dict raised {again.name}: '
-                    f'{again.msg}', case=case)
-    return new
+    # (whether from_dict edits the dict it is given is C20's question, not C14's: it gets a private copy here)
+    return cls.from_dict(copy.deepcopy(d))
 
 
 def model_label(spec):
